@@ -324,9 +324,39 @@ func runGate(b *runner.Batch, n int, art string) {
 		}
 		sets = append(sets, ss{"majority", w.Major(), true})
 	}
+	rotate := roleGated && n == 7
 	for _, s := range sets {
-		tr := w.Invoke(s.s, h, "update", real.NEFBytes, real.ManBytes, nil)
-		b.Tx(1)
+		var tr *world.TxResult
+		if s.ok && rotate {
+			// The NeoFSAlphabet role is re-designated in block N; in block N+1 the dismissed majority
+			// asks for the update first and the acting one second (seeded change C16-2: a stale role height).
+			var ir2 []*keys.PrivateKey
+			for i := 0; i < 4; i++ {
+				ir2 = append(ir2, world.Key(b.Seed, b.Index, "c16-ir2", i))
+			}
+			if err := w.DesignateIR(world.Pubs(ir2)); err != nil {
+				b.Inconclusive("re-designation: " + err.Error())
+				return
+			}
+			maj2 := world.Multi(ir2, smartcontract.GetMajorityHonestNodeCount(4))
+			rs := w.Block(w.Prepare(s.s, h, "update", real.NEFBytes, real.ManBytes, nil),
+				w.Prepare([]world.SignerSpec{world.G(maj2)}, h, "update", real.NEFBytes, real.ManBytes, nil))
+			b.Tx(2)
+			if old := rs[0]; old.Halted() || !old.Diff.Empty() {
+				b.Violation(fmt.Sprintf("%s.update was granted to the majority of the Inner Ring dismissed in the previous block", art),
+					map[string]any{"contract": art, "committee": n, "tx": w.RenderResult(old, true)})
+				return
+			}
+			b.Hit("gate-refused:dismissed-inner-ring-majority")
+			b.Eval(fmt.Sprintf("gate|%s|dismissed-inner-ring-majority|%s|n%d", art, rs[0].State, n), true)
+			tr = rs[1]
+			s.label = "inner-ring-majority designated in the previous block"
+			s.s = []world.SignerSpec{world.G(maj2)}
+			b.Hit("gate-accepted-after-rotation")
+		} else {
+			tr = w.Invoke(s.s, h, "update", real.NEFBytes, real.ManBytes, nil)
+			b.Tx(1)
+		}
 		det := map[string]any{"contract": art, "signers": s.label, "committee": n, "tx": w.RenderResult(tr, true)}
 		if !s.ok {
 			if tr.Halted() || !tr.Diff.Empty() || e.version(h) != vs.cur-1 || e.checksum(h) != low[art].NEF.Checksum {
@@ -860,13 +890,13 @@ func runC16(b *runner.Batch) {
 func init() {
 	runner.Register(&runner.Check{
 		ID: "C16", Level: "exploration",
-		Rule: "Three engines executing the tree's real update/_deploy(isUpdate). Gate: the current sources compiled from a scratch copy whose only change is a lower version number are deployed on committees of 3 and 7 with state in every contract, and update to the real build is attempted under {nobody, stranger, single member, one Inner Ring key, Alphabet 2/3+1, Inner Ring majority, committee majority}; refusals must change nothing, the accepted upgrade must preserve the whole read API, a second upgrade must be refused. Bounds + synthetic legacy storages: a shim contract carrying the target's manifest name is filled (raw pokes) with the state of a live contract of the same world rewritten into the layout of the reported version {0, oldest-1, oldest, oldest+1, 15999..19999 class borders, new-1, new, new+1, 2^31} x notary flag {absent, false, true with no / stale / pending ballots} x legacy key layout, then upgraded; success iff oldest <= v < new and no pending vote, the read API and the raw storage afterwards must equal the live contract's, migrated subscribers must still receive ticks in order and migrated locks must unlock. Recorded dumps: the repository's network dumps are loaded twice, one copy upgraded, and the read API of both copies compared. distinct = (engine, contract, version class, flag variant, signer set, outcome).",
+		Rule: "Three engines executing the tree's real update/_deploy(isUpdate). Gate: the current sources compiled from a scratch copy whose only change is a lower version number are deployed on committees of 3 and 7 with state in every contract, and update to the real build is attempted under {nobody, stranger, single member, one Inner Ring key, Alphabet 2/3+1, Inner Ring majority, committee majority}; for the role-gated main-chain contracts on the committee of 7 the NeoFSAlphabet role is re-designated in block N and block N+1 carries the update request of the dismissed majority (must be refused) followed by that of the acting one (must be granted); refusals must change nothing, the accepted upgrade must preserve the whole read API, a second upgrade must be refused. Bounds + synthetic legacy storages: a shim contract carrying the target's manifest name is filled (raw pokes) with the state of a live contract of the same world rewritten into the layout of the reported version {0, oldest-1, oldest, oldest+1, 15999..19999 class borders, new-1, new, new+1, 2^31} x notary flag {absent, false, true with no / stale / pending ballots} x legacy key layout, then upgraded; success iff oldest <= v < new and no pending vote, the read API and the raw storage afterwards must equal the live contract's, migrated subscribers must still receive ticks in order and migrated locks must unlock. Recorded dumps: the repository's network dumps are loaded twice, one copy upgraded, and the read API of both copies compared. distinct = (engine, contract, version class, flag variant, signer set, outcome).",
 		Assumptions: []string{"neo-go v0.107.0 VM, ledger, ContractManagement are the trusted base", "contracts are compiled at check time from /repo/contracts; the down-versioned build differs only in common/version.go",
 			"the legacy layouts are reconstructed from the migration code's documented expectations (un-prefixed balance accounts, un-prefixed container keys, pre-0.16 node structures, notary/ballots flags, legacy subscriber keys, committee-owned TLD entries); the pre-0.17 non-notary Alphabet contract migration (GAS redistribution) is not synthesised"},
 		Batches: func(t string) int { return len(plans(t)) },
 		Helpers: []string{"probe", "shim"}, Chunk: 2,
 		Prepare: prepareLow,
-		Floors: []string{"gate-refused:nobody", "gate-refused:single-member", "gate-refused:alphabet", "gate-refused:chain-majority", "gate-refused:inner-ring-majority", "gate-accepted:balance", "gate-accepted:container", "gate-accepted:netmap", "gate-accepted:nns", "gate-accepted:neofs", "gate-accepted:processing", "gate-accepted:proxy", "gate-accepted:alphabet", "gate-accepted:audit", "gate-accepted:neofsid", "gate-accepted:reputation", "gate-same-version-refused",
+		Floors: []string{"gate-refused:nobody", "gate-refused:single-member", "gate-refused:alphabet", "gate-refused:chain-majority", "gate-refused:inner-ring-majority", "gate-accepted:balance", "gate-accepted:container", "gate-accepted:netmap", "gate-accepted:nns", "gate-accepted:neofs", "gate-accepted:processing", "gate-accepted:proxy", "gate-accepted:alphabet", "gate-accepted:audit", "gate-accepted:neofsid", "gate-accepted:reputation", "gate-same-version-refused", "gate-refused:dismissed-inner-ring-majority", "gate-accepted-after-rotation",
 			"bounds-refused:too-old", "bounds-refused:not-older", "bounds-refused:pending-vote", "upgrade-ok:<0.16", "upgrade-ok:<0.17", "upgrade-ok:<0.18", "upgrade-ok:<0.19", "upgrade-ok:<0.20", "notary-flag:true-stale", "notary-flag:true-empty", "notary-flag:false", "version-bounds:nns", "version-bounds:balance", "dump-upgraded"},
 		Run: runC16,
 	})
